@@ -8,15 +8,37 @@ import riemann_oracles as RO
 import selfsim_oracle as SS
 from props import c01
 
+import mader_corr as MC
+import ehep_corr as EC
+import guderley_corr as GDC
+
+
+def both_corr(rng, tier, prop):
+    files, ng, dis, sample = MC.unit_corr(rng, tier, prop)
+    f2, n2, d2, s2 = EC.unit_corr(rng, tier, prop)
+    return files + f2, ng + n2, list(dis) + list(d2), sample or s2
+
+
 UNITS = [
-    flow.Unit('noh-and-riemann-fans', groups=['noh', 'riemann'], props=['props/C10_selfsim.v'],
+    flow.Unit('noh-and-riemann-fans', groups=['noh', 'noh2', 'riemann'], props=['props/C10_selfsim.v'],
               corr=[dict(gen='Noh1', pfx='noh', n=4, spec=c01.NOHSPEC)], custom_corr=RC.unit_corr,
               oracle=SO.make(SO.selfsim_cases)),
+    flow.Unit('cog19-mader-ehep', groups=['cog19', 'mader', 'ehep'], props=['props/C10_more.v'],
+              corr=[dict(gen='Cog19', pfx='cog19', n=4, spec={'gamma': (1.1, 2.5), 'u0': (-3.0, -0.2)})], custom_corr=both_corr,
+              oracle=SO.make(SO.selfsim_cases),
+              note='Cog19 in every geometry, the Mader cell function rare() (cell size scaled with t) and EHEP region I: theorems on the regenerated '
+                   'expressions; correspondence of gen/Cog19.v, gen/Mader.v and gen/Ehep.v with the real code'),
+    flow.Unit('selfsim-real-code', groups=[], props=[], oracle=SO.make(SO.selfsim_cases), always_oracle=True,
+              note='Noh, Cog19 (geometries 1-3, both sides of the shock), EHEP region I and Mader (grid scaled with t) evaluated on the real code at (x, t) and '
+                   'at the similarity image'),
     flow.Unit('riemann-driver', groups=['riemann'], props=[], custom_corr=None, oracle=RO.sym_oracle(('selfsim',)), always_oracle=True,
               note='assembled Riemann solution: self-similarity about xd0 checked on the real code (oracle); theorem covers the fans'),
     flow.Unit('sedov-exponents', groups=['sedov'], props=['props/C10_sedov.v'], custom_corr=None, oracle=SS.oracle,
               note='regenerated shock radius r2 ~ t^(2/(j+2-omega)) and post-shock amplitudes rho2 ~ r2^-omega, u2 ~ r2/t, p2 ~ r2^-omega (r2/t)^2 (theorems); '
                    'the correspondence of gen/Sedov.v with the real object runs in ./check C11'),
+    flow.Unit('guderley-prefactors', groups=['guderley'], props=['props/C10_guderley.v'], custom_corr=GDC.unit_corr, oracle=SS.oracle,
+              note='Guderley: the map from similarity variables to physical fields carries the documented powers of r at equal similarity coordinate, and the '
+                   'coordinate computed by guderley_1d is invariant under r -> s r, Lazarus time -> s^lambda Lazarus time (theorems on the regenerated algebra)'),
     flow.Unit('sedov-guderley', groups=[], props=[], oracle=SS.oracle, always_oracle=True,
               note='Sedov with power-law ambient density (image that keeps E and rho0 fixed) and Guderley (equal Lazarus-time / r^lambda, all four regions) on the real '
                    'code; both solvers involve quadrature / ODE integration (class NU)'),
